@@ -602,6 +602,10 @@ def m_vec_len(I, st, args, c, dest, target, span):
 def m_vec_is_empty(I, st, args, c, dest, target, span):
     if is_nodes_vec(I, st, args[0]):
         return VBool(I.cmp(st, st.len, Lin(0), "Eq"))
+    r = I.force(st, args[0])
+    v = I.force(st, I.load(st, r.root, r.path)) if isinstance(r, VRef) else r
+    if isinstance(v, VVec) and v.id in st.meta.get("vecs", {}):
+        return VBool(I.cmp(st, st.meta["vecs"][v.id], Lin(0), "Eq"))
     raise Undecided("is_empty of an unknown vector")
 
 
@@ -669,7 +673,7 @@ def m_vec_capacity(I, st, args, c, dest, target, span):
 def m_vec_reserve(I, st, args, c, dest, target, span):
     if not is_nodes_vec(I, st, args[0]):
         raise Undecided("reserve on unknown vector")
-    st.events.append(("capacity-change", c.get("path")))
+    st.events.append(("capacity-change", c.get("path"), repr(I.force(st, args[1])) if len(args) > 1 else None))
     return UNIT
 
 
